@@ -34,7 +34,15 @@ def machine_tokens(workdir, home):
 def gen_case(rng, i):
     mix = rng.random() < 0.35
     spec_tokens = [USER, 'HOSTTOKEN', 'IPTOKEN', 'CWDTOKEN', 'HOMETOKEN/.toolrc', 'HOMETOKEN'] + GC.today_tokens() if mix else []
+    if not mix and rng.random() < 0.25:
+        spec_tokens = GC.near_dates()          # dates close to the run, but outside the window gentest treats as "now"
     spec = GC.gen_command(rng, spec_tokens, i)
+    if spec_tokens and not mix:
+        near = spec_tokens
+        for ls in [spec['stdout'], spec['stderr']] + [f['lines'] for f in spec['files'] if f['kind'] == 'text']:
+            for k in range(len(ls)):
+                if rng.random() < 0.5:
+                    ls[k] = ls[k] + ' due ' + rng.choice(near)
     flags = []
     it = rng.choice([1, 2, 2, 3])
     if any(f.get('repeat') for f in spec['files']) and rng.random() < 0.6:
@@ -61,7 +69,7 @@ def gen_case(rng, i):
     if script != 'OMIT' and rng.random() < 0.25:
         cmd_tail = rng.choice([" 'x\"\"\"y'", ' "it\'s"', " back\\\\slash", " 'bs\\x'", " 'ends\\'", ' ünï', ' # note \"\"\"', " '%s %d'", ' a  b'])
     case = {'spec': spec, 'flags': flags, 'iterations': it, 'script': script, 'refmode': refmode, 'decoys': rng.random() < 0.7,
-            'cmd_tail': cmd_tail,
+            'cmd_tail': cmd_tail, 'linked_store': rng.random() < 0.15,
             'previous_generation': rng.random() < 0.2, 'flags_first': rng.random() < 0.5, 'old_decoys': rng.random() < 0.6}
     if rng.random() < 0.2:
         # the same request put through gentest's question-and-answer wizard (`tdda gentest` with no parameters),
@@ -126,6 +134,13 @@ def generate(ctx, case, tag='g'):
                 f.write(data)
             if case.get('old_decoys', True):
                 os.utime(p, (1500000000, 1500000000))      # mtime in 2017, ctime now
+    if case.get('linked_store'):
+        # a link, inside the working directory, to a directory elsewhere that holds data the command never touches
+        os.makedirs(os.path.join(root, 'store'))
+        with open(os.path.join(root, 'store', 'lookup.csv'), 'w') as f:
+            f.write('k,v\n1,one\n')
+        os.utime(os.path.join(root, 'store', 'lookup.csv'), (1500000000, 1500000000))
+        os.symlink(os.path.join('..', 'store'), os.path.join(workdir, 'linked'))
     env = {'LOGNAME': USER, 'USER': USER, 'HOME': home, 'TDDA_FAIL_DIR': os.path.join(root, 'fail')}
     os.makedirs(env['TDDA_FAIL_DIR'])
     try:
